@@ -171,7 +171,12 @@ def gen_fanin_spec(rng: random.Random) -> dict:
     if rng.random() < 0.3:
         coll_script.append(["gate"])
     coll_script.append(["ret", rng.choice(["7", "7", "none", "stop"])])
-    coll = {"name": "s03", "accepts": [5, 6] if two_types else [5], "nw": nw, "retry": None, "script": coll_script}
+    coll_retry = None
+    if rng.random() < 0.3:
+        # the collecting step fails its first attempt(s) before it collects: retried invocations then meet stale snapshots
+        coll_retry = {"kind": "attempts", "n": rng.randint(3, 4), "wait": 0}
+        coll_script.insert(0, ["fail_until", rng.randint(1, 2), rng.randint(1, 9)])
+    coll = {"name": "s03", "accepts": [5, 6] if two_types else [5], "nw": nw, "retry": coll_retry, "script": coll_script}
     sink = {"name": "s05", "accepts": [7], "nw": rng.randint(1, 2), "retry": None,
             "script": ([["gate"]] if rng.random() < 0.5 else []) + [["ret", rng.choice(["none", "stop"])]]}
     steps = [start, coll, sink]
